@@ -19,6 +19,18 @@ piece — LF, CR, CRLF, LF LF, SP, HTAB, ':', NUL, VT, FF, FS..US, NEL, NBSP, DE
 non-tchar byte; for text also non-Latin-1 code points — at its END, at its start or inside), and plainly bad
 ones; through setHeader, addRawHeader, setRawHeaders (0..3 values) and removeHeader, as bytes and as text.
 Every non-tchar byte is swept through the three positions deterministically on every run.
+
+After the white-box mutation audit (harness/mutants/C20) the case language also has:
+* `names`: several names through `_nameEncoder.encode` IN ONE CASE — a valid name in two spellings, then a name that a
+  normalisation (lower / upper / casefold / strip / NFKC / dropping ignorables) maps onto it: the encoder's cache is global
+  state and must stay transparent (same pairs inside whole responses);
+* `sr` with a share key: the application hands ONE list object to several setRawHeaders calls and changes it afterwards;
+* argument kinds `ts` / `bs`: instances of a str / bytes SUBCLASS as names, values and cookie parts;
+* `conn`: the request's own Connection header (keep-alive, Close, "keep-alive, close", "keep-alive,close", …; HTTP/1.0 half
+  of the time) — the model computes persistence from it (`connClose`, `initConn`);
+* `prev` / `pipe`: earlier requests answered on the SAME connection (pipelined in one segment or not), among them twins of
+  the observed exchange differing in one respect; every response of the connection is cut out, parsed by h11, judged by
+  the oracle and compared with a fresh run of the model (driver `seq`).
 """
 import re
 import warnings
@@ -43,14 +55,28 @@ RULE = ("scripts = request context (HTTP/1.0|1.1, GET|HEAD, Connection: close or
         "of a valid name (bytes and text) through _nameEncoder.encode, and 270 whole responses with LF/CR/CRLF/… in those "
         "places through setHeader/addRawHeader/setRawHeaders/removeHeader; plus direct _sanitizeLinearWhitespace cases; "
         "distinct = (version, method, status class, framing, which hostile bytes occurred where, which operations were "
-        "refused, class of each non-token name (where the foreign piece sits, what it is), #writes)")
+        "refused, class of each non-token name (where the foreign piece sits, what it is), #writes); "
+        "AUDIT CLASSES: 5 % of scripts set a valid name (1-2 spellings) and then a name that lower/upper/casefold/strip/NFKC/"
+        "ignorable-dropping maps onto it (KELVIN SIGN, LONG S, ß, dotless i, ligatures, ², ª, fullwidth, soft hyphen, 19 kinds "
+        "of surrounding whitespace), and every such pair of 18 base names is swept as a `names` case on every run; 5 % hand one "
+        "shared list object to 2-3 setRawHeaders calls (the application clears / extends it afterwards in 55 %); 5 % of values "
+        "and 4 % of names are instances of str / bytes subclasses; 12 % of scripts carry another Connection request header (31 "
+        "values: keep-alive, case variants, comma / space separated lists, blanks; HTTP/1.0 half of the time) and all 31 x "
+        "{1.0, 1.1} x {counted, uncounted} are swept; 14 % of scripts are preceded by 1-3 other requests on the same connection "
+        "(random scripts or twins of the observed one with another reason / field / method / body; pipelined 50 %); "
+        "distinct additionally = Connection class, #earlier requests + pipelined + HEAD among them, kinds of argument objects")
 ASSUMES = [
     "the status code in force at the first write is a final status code 200..999 (three digits; 1xx are interim responses)",
     "the application does not set Transfer-Encoding itself; a Content-Length it sets is a single decimal value equal to "
     "the number of body bytes it writes (any decimal value for HEAD / 204 / 304)",
     "Request.setETag / setLastModified are not used (etag and lastModified stay None); no producer is registered",
     "headers are set through Request.setHeader and responseHeaders.addRawHeader / setRawHeaders / removeHeader with str or "
-    "bytes arguments (not by writing into Headers._rawHeaders, not with other argument types)",
+    "bytes arguments, instances of their subclasses included (not by writing into Headers._rawHeaders, not with other "
+    "argument types); the values of setRawHeaders come in a list, which stays the application's own object",
+    "earlier requests on the same connection are HTTP/1.1 without a Connection header and finish their response; requests "
+    "carry no body and no Expect header; a request's Connection header is printable ASCII / HTAB on one line",
+    "whether the server itself announces `Connection: close` for a Connection request header other than exactly `close` is "
+    "not judged (if it does, the connection has to be closed)",
     "cookies added with addCookie replace a Set-Cookie header set directly (documented behaviour of Request.write)",
     "cookie values are compared as cookie-pairs: SP/HTAB next to '=' and ';' and at the ends are not significant",
     "field values are compared without leading/trailing SP/HTAB (RFC 9110 §5.5: not part of the value)",
@@ -71,11 +97,17 @@ MANIFEST = {
             "head has gone out) change nothing on the wire, nor does anything called after finish: the headline "
             "(emits_one_wellformed_response_any_history) quantifies over EVERY history pre ++ [finish] ++ tail with no finish "
             "in pre — set-up calls and writes in any order — and reads status/reason/fields off the request as it stood at "
-            "the first write and the body off all writes. "
+            "the first write and the body off all writes. The request's own Connection header: connClose mirrors "
+            "checkPersistence's token test; emits_one_wellformed_response_any_connection_header is the headline for every such "
+            "header; closed_iff_not_persistent and http10_response_closes_connection: after every finishing history the "
+            "connection is closed iff the channel is not persistent, and an HTTP/1.0 response is ALWAYS followed by the close "
+            "(keep-alive or not) — the only thing that ends an uncounted 1.0 body. Several requests on one connection are each "
+            "a fresh run of the model (new Request per request); the name cache is transparent (encodeName is a function). "
             "Model tied to http.py/http_headers.py by differential runs of whole scripts through a real HTTPChannel; "
             "reference parser tied to h11 on every emitted response.",
     "note": "trusts Lean kernel, the hand-written model and reference parser (both differentially tied on every run), h11",
-    "technique": "Lean 4 proof (parser/emitter inversion by induction over field lines and chunks) + differential tie + h11 oracle",
+    "technique": "Lean 4 proof (parser/emitter inversion by induction over field lines and chunks) + differential tie + h11 oracle"
+                 " + white-box mutation audit (harness/mutants/C20: 14 mutants)",
     "design_ref": "DESIGN.md §7 C20",
 }
 
@@ -87,25 +119,39 @@ def hx(b):
     return b.hex() if b else "-"
 
 
+class StrSub(str):
+    """a `str` subclass instance (what `class Color(str, Enum)`, markupsafe.Markup, … hand to setHeader): it IS a str"""
+
+
+class BytesSub(bytes):
+    """a `bytes` subclass instance"""
+
+
+KINDS = ("b", "t", "bs", "ts")      # bytes, str, instance of a bytes subclass, instance of a str subclass
+
+
 def S(x):
     """python value -> JSON Str"""
     if isinstance(x, bytes):
-        return ["b", x.hex()]
-    return ["t", [ord(c) for c in x]]
+        return ["bs" if type(x) is BytesSub else "b", x.hex()]
+    return ["ts" if type(x) is StrSub else "t", [ord(c) for c in x]]
 
 
 def unS(s):
     if s is None:
         return None
-    if s[0] == "b":
-        return bytes.fromhex(s[1])
-    return "".join(chr(c) for c in s[1])
+    if s[0][0] == "b":
+        v = bytes.fromhex(s[1])
+        return BytesSub(v) if s[0] == "bs" else v
+    v = "".join(chr(c) for c in s[1])
+    return StrSub(v) if s[0] == "ts" else v
 
 
 def encS(s):
+    """for the model a subclass instance is its base type (isinstance is what the code asks)"""
     if s is None:
         return "N"
-    if s[0] == "b":
+    if s[0][0] == "b":
         return "b" + (s[1] or "-")
     return "t" + (".".join(str(c) for c in s[1]) or "-")
 
@@ -130,12 +176,29 @@ def enc_op(op):
     raise ValueError(k)
 
 
+def _enc_ctx(r):
+    """request context: HTTP/1.1?, HEAD?, and the request's Connection header: `0` = none, `1` = `close`, `c<hex>` = that value"""
+    conn = r.get("conn")
+    return [str(r["v11"]), str(r["head"]), str(r.get("close", 0)) if conn is None else "c" + (conn or "-")]
+
+
+def _requests(c):
+    """the requests served on the ONE connection of a run case, in order: the earlier ones (`prev`: HTTP/1.1 without a
+    Connection header, so the connection persists), then the observed one"""
+    return [dict(v11=1, head=p["head"], close=0, ops=p["ops"], op="run") for p in c.get("prev", [])] + \
+        [dict(v11=c["v11"], head=c["head"], close=c.get("close", 0), conn=c.get("conn"), ops=c["ops"], op="run")]
+
+
 def model_line(c):
     if c["op"] == "san":
         return "san " + (c["x"] or "-")
     if c["op"] == "name":
         return "name " + encS(c["n"])
-    return " ".join(["run", str(c["v11"]), str(c["head"]), str(c["close"])] + [enc_op(o) for o in c["ops"]])
+    if c["op"] == "names":
+        return "names " + " ".join(encS(n) for n in c["ns"])
+    if c.get("prev"):
+        return "seq " + " | ".join(" ".join(_enc_ctx(r) + [enc_op(o) for o in r["ops"]]) for r in _requests(c))
+    return " ".join(["run"] + _enc_ctx(c) + [enc_op(o) for o in c["ops"]])
 
 
 # ----------------------------------------------------------------------------------------------------
@@ -174,7 +237,7 @@ def _h11_parse(data, closed, head):
     return f"{resp.status_code}/{hx(bytes(resp.reason))}/{hs}/{hx(body)}"
 
 
-def _call(req, op):
+def _call(req, op, env):
     k = op[0]
     if k == "sc":
         req.setResponseCode(op[1], None if op[2] is None else bytes.fromhex(op[2]))
@@ -183,7 +246,20 @@ def _call(req, op):
     elif k == "ah":
         req.responseHeaders.addRawHeader(unS(op[1]), unS(op[2]))
     elif k == "sr":
-        req.responseHeaders.setRawHeaders(unS(op[1]), [unS(v) for v in op[2]])
+        vals = [unS(v) for v in op[2]]
+        share = op[3] if len(op) > 3 else None
+        if share is not None:
+            # the application keeps ONE list object per `share` key, fills it with the values of this call and hands
+            # THAT object to setRawHeaders (a reused buffer); what it does to its own list afterwards is its own business
+            lst = env.setdefault(("list", share), [])
+            lst[:] = vals
+            vals = lst
+        req.responseHeaders.setRawHeaders(unS(op[1]), vals)
+        if share is not None and len(op) > 4 and op[4] is not None:
+            if op[4] == "clear":
+                vals.clear()
+            else:
+                vals.extend(unS(v) for v in op[4])
     elif k == "rm":
         req.responseHeaders.removeHeader(unS(op[1]))
     elif k == "ck":
@@ -198,40 +274,74 @@ def _call(req, op):
         raise AssertionError(k)
 
 
+def _encode_name(n):
+    try:
+        return hx(_nameEncoder.encode(unS(n)))
+    except UnicodeEncodeError:
+        return "!raised UnicodeEncodeError"
+    except ValueError as e:
+        return "!raised " + type(e).__name__
+
+
+def _request_bytes(r):
+    conn = r.get("conn")
+    if conn is not None:
+        line = b"Connection: " + bytes.fromhex(conn) + b"\r\n"
+    else:
+        line = b"Connection: close\r\n" if r.get("close") else b""
+    return ((b"HEAD" if r["head"] else b"GET") + b" / " + (b"HTTP/1.1" if r["v11"] else b"HTTP/1.0")
+            + b"\r\nHost: x\r\n" + line + b"\r\n")
+
+
+SEP = " | "
+
+
 def run_impl(c):
     if c["op"] == "san":
         return hx(_sanitizeLinearWhitespace(bytes.fromhex(c["x"])))
     if c["op"] == "name":
-        try:
-            return hx(_nameEncoder.encode(unS(c["n"])))
-        except UnicodeEncodeError:
-            return "!raised UnicodeEncodeError"
-        except ValueError as e:
-            return "!raised " + type(e).__name__
-    errs = []
-    ops = c["ops"]
+        return _encode_name(c["n"])
+    if c["op"] == "names":
+        return ",".join(_encode_name(n) for n in c["ns"])
+    reqs = _requests(c)
+    marks, errs_all = [], []
+    t = StringTransport()
 
     class ScriptedRequest(http.Request):
         def process(self):
-            for i, op in enumerate(ops):
+            j = len(marks)
+            marks.append((len(t.value()) if marks else 0, bool(t.disconnecting)))      # where this request's response starts
+            errs = []
+            errs_all.append(errs)
+            env = {}
+            for i, op in enumerate(reqs[j]["ops"] if j < len(reqs) else []):
                 try:
-                    _call(self, op)
+                    _call(self, op, env)
                 except (ValueError, RuntimeError) as e:      # InvalidHeaderName, UnicodeEncodeError are ValueErrors
                     errs.append(f"{i}:{type(e).__name__}")
 
     ch = http.HTTPChannel()
     ch.requestFactory = ScriptedRequest
-    t = StringTransport()
     ch.makeConnection(t)
     with warnings.catch_warnings():
         warnings.simplefilter("ignore")
-        ch.dataReceived((b"HEAD" if c["head"] else b"GET") + b" / " + (b"HTTP/1.1" if c["v11"] else b"HTTP/1.0")
-                        + b"\r\nHost: x\r\n" + (b"Connection: close\r\n" if c["close"] else b"") + b"\r\n")
+        if c.get("pipe"):
+            ch.dataReceived(b"".join(_request_bytes(r) for r in reqs))      # pipelined: one segment
+        else:
+            for r in reqs:
+                ch.dataReceived(_request_bytes(r))
     out = t.value()
-    closed = bool(t.disconnecting)
     ch.setTimeout(None)
-    return (f"errs={','.join(errs) or '-'} out={hx(out)} closed={int(closed)} "
-            f"parse={_h11_parse(out, closed, bool(c['head']))}")
+    if not marks:
+        marks.append((0, False))
+        errs_all.append([])
+    marks.append((len(out), bool(t.disconnecting)))
+    res = []
+    for j in range(len(marks) - 1):
+        seg, closed = out[marks[j][0]:marks[j + 1][0]], marks[j + 1][1]
+        res.append(f"errs={','.join(errs_all[j]) or '-'} out={hx(seg)} closed={int(closed)} "
+                   f"parse={_h11_parse(seg, closed, bool(reqs[j]['head']))}")
+    return SEP.join(res)
 
 
 # ----------------------------------------------------------------------------------------------------
@@ -278,11 +388,15 @@ def _name(x):
     return x.lower() if _is_token(x) else None
 
 
-def expected(c):
-    """→ dict(wf, status, reason, headers {lname: [values]}, cookies, body, refused {op index})"""
+def expected(c, announce_close=None):
+    """→ dict(wf, status, reason, headers {lname: [values]}, cookies, body, refused {op index})
+    `announce_close`: the server has put `Connection: close` into the response headers before the application runs
+    (default: iff the request is HTTP/1.1 with `Connection: close`)"""
     code, reason = 200, b"OK"
     hdrs = {}
-    if c["v11"] and c["close"]:
+    if announce_close is None:
+        announce_close = bool(c.get("conn") is None and c["v11"] and c.get("close"))
+    if announce_close:
         hdrs[b"connection"] = [b"close"]
     cookies, body, refused = [], b"", set()
     started = finished = False
@@ -384,15 +498,57 @@ def oracle(c, out):
             return {"key": "sanitize-changes-value", "detail": f"_sanitizeLinearWhitespace({x!r}) = {r!r}"}
         return None
     if c["op"] == "name":
-        want = _name(unS(c["n"]))
-        if want is None:
-            return None if out.startswith("!raised") else {"key": "invalid-name-accepted", "detail": f"{c['n']} -> {out}"}
-        if out.startswith("!") or _unhx(out).lower() != want:
-            return {"key": "valid-name-changed", "detail": f"{c['n']} -> {out}"}
+        return _oracle_name(c["n"], out, "")
+    if c["op"] == "names":
+        if out.startswith("!raised "):
+            return {"key": "script-raised", "detail": out}
+        outs = out.split(",")
+        if len(outs) != len(c["ns"]):
+            return {"key": "names-output", "detail": out}
+        for j, (n, o) in enumerate(zip(c["ns"], outs)):
+            r = _oracle_name(n, o, "-after-other-names" if j else "")
+            if r:
+                return r
         return None
     if out.startswith("!raised"):
         return {"key": "script-raised", "detail": out}
-    exp = expected(c)
+    reqs = _requests(c)
+    parts = out.split(SEP)
+    if len(parts) != len(reqs):
+        return {"key": "responses-on-connection", "detail": f"{len(reqs)} requests on the connection, {len(parts)} answered"}
+    for j, (r, part) in enumerate(zip(reqs, parts)):
+        res = _oracle_run(r, part)
+        if res:
+            if j:
+                res = {"key": res["key"] + "-on-reused-connection", "detail": f"request #{j + 1} on the connection: " + res["detail"]}
+            return res
+    return None
+
+
+def _oracle_name(n, out, suffix):
+    want = _name(unS(n))
+    if want is None:
+        return None if out.startswith("!raised") else {"key": "invalid-name-accepted" + suffix, "detail": f"{n} -> {out}"}
+    if out.startswith("!") or _unhx(out).lower() != want:
+        return {"key": "valid-name-changed" + suffix, "detail": f"{n} -> {out}"}
+    return None
+
+
+def _oracle_run(c, out):
+    """the property for ONE request/response exchange (`c`: context + script, `out`: what was observed for it)"""
+    if c.get("conn") is None:
+        return _judge(c, out, expected(c))
+    # a request with some other Connection header than none / `close`: whether the server announces `Connection: close`
+    # itself is not this property's business — but if it does, it has to close the connection
+    r = _judge(c, out, expected(c, False))
+    if r is None:
+        return None
+    if _fields(out)["closed"] == "1" and _judge(c, out, expected(c, True)) is None:
+        return None
+    return r
+
+
+def _judge(c, out, exp):
     if exp is None:
         return None
     f = _fields(out)
@@ -473,12 +629,20 @@ def compare(c, io, mo):
         return True
     if c["op"] != "run" or io.startswith("!") or mo.startswith("!") or mo in ("bad-op", "bad-model"):
         return False
-    a, b = _fields(io), _fields(mo)
-    if (a["errs"], a["out"], a["closed"]) != (b["errs"], b["out"], b["closed"]):
+    reqs, ia, ma = _requests(c), io.split(SEP), mo.split(SEP)
+    if not len(reqs) == len(ia) == len(ma):
         return False
-    # outside the property's preconditions (false Content-Length, application-set Transfer-Encoding, interim or
-    # non-3-digit status) h11 and the reference parser are not required to read the bytes alike
-    return not is_wf(c)
+    for r, i1, m1 in zip(reqs, ia, ma):
+        if i1 == m1:
+            continue
+        a, b = _fields(i1), _fields(m1)
+        if (a["errs"], a["out"], a["closed"]) != (b["errs"], b["out"], b["closed"]):
+            return False
+        # outside the property's preconditions (false Content-Length, application-set Transfer-Encoding, interim or
+        # non-3-digit status) h11 and the reference parser are not required to read the bytes alike
+        if is_wf(r):
+            return False
+    return True
 
 
 # ----------------------------------------------------------------------------------------------------
@@ -509,7 +673,16 @@ def _rtext(rng, n=None):
     return "".join(rng.choice(TCHARS) for _ in range(n))
 
 
+def _sub(rng, s, p=0.05):
+    """now and then the argument is an instance of a str / bytes SUBCLASS (`type(x) is str` is False for it)"""
+    return [s[0] + "s", s[1]] if rng.random() < p else s
+
+
 def _rval(rng):
+    return _sub(rng, _rval0(rng))
+
+
+def _rval0(rng):
     r = rng.random()
     if r < 0.12:
         v = _redge(rng)
@@ -568,6 +741,10 @@ def _near_token(rng, base=None):
 
 
 def _rname(rng):
+    return _sub(rng, _rname0(rng), 0.04)
+
+
+def _rname0(rng):
     r = rng.random()
     if r < 0.58:
         n = rng.choice(NAMES)
@@ -581,6 +758,62 @@ def _rname(rng):
         return S(rng.choice(BAD_NAMES))
     return S(rng.choice(BAD_TNAMES))
 
+
+# ---- names that some normalisation maps onto a valid token -----------------------------------------------------
+# A cache / comparison keyed on a NORMALISED spelling (lower, upper, casefold, strip, NFKC, …) answers for such a
+# name with the entry of the valid name it collapses to — but only once that valid name has been seen.
+NORM_BASES = ["Set-Cookie", "X-Fook", "Keep-Alive", "Link", "Host", "Server", "Status", "X-Xss-Protection",
+              "Www-Authenticate", "Strict-Transport-Security", "Last-Modified", "Content-Disposition", "X-A2", "Office",
+              "Etag", "Kiss", "X-Stiff-1", "Cookie"]
+
+
+def _norm_variants(base):
+    """→ [(how, name)]: names (str or bytes) that are NOT valid header names but that `how` maps onto `base`"""
+    out = []
+
+    def sub1(pat, repl, how):
+        i = base.lower().find(pat)
+        if i >= 0:
+            out.append((how, base[:i] + repl + base[i + len(pat):]))
+    sub1("k", "\u212a", "lower")                 # KELVIN SIGN .lower() == "k"
+    sub1("s", "\u017f", "upper")                 # LONG S .upper() == "S", casefold "s"
+    sub1("ss", "\xdf", "upper")                  # ß (Latin-1!) .upper() == "SS", casefold "ss"
+    sub1("i", "\u0131", "upper")                 # DOTLESS I .upper() == "I"
+    sub1("fi", "\ufb01", "nfkc")
+    sub1("ff", "\ufb00", "nfkc")
+    sub1("st", "\ufb06", "nfkc")
+    sub1("2", "\xb2", "nfkc")                    # ² (Latin-1!)
+    sub1("1", "\xb9", "nfkc")
+    sub1("a", "\xaa", "nfkc")                    # ª (Latin-1!)
+    sub1("o", "\xba", "nfkc")                    # º (Latin-1!)
+    for i, ch in enumerate(base):
+        if ch.isalnum():
+            fw = chr(ord(ch) - 0x21 + 0xFF01)     # fullwidth form
+            out.append(("nfkc", base[:i] + fw + base[i + 1:]))
+            break
+    mid = max(1, len(base) // 2)
+    out.append(("drop-ignorable", base[:mid] + "\xad" + base[mid:]))      # SOFT HYPHEN (Latin-1!)
+    out.append(("drop-ignorable", base[:mid] + "\u200b" + base[mid:]))
+    for ws in (" ", "\t", "\n", "\r\n", "\x0b", "\x0c", "\x1c", "\x1f", "\x85", "\xa0", "\u2028", "\u3000"):
+        out.append(("strip", base + ws))
+        out.append(("strip", ws + base))
+    for ws in (b" ", b"\t", b"\n", b"\r\n", b"\x0b", b"\x0c", b"\x00"):
+        out.append(("strip", base.encode() + ws))
+        out.append(("strip", ws + base.encode()))
+    return out
+
+
+def _spellings(base):
+    return [base.lower(), base.upper(), base, base.lower().encode(), base.upper().encode(), base.encode(),
+            base.swapcase(), base.title()]
+
+
+# ---- the request's own Connection header (HTTPChannel.checkPersistence decides from it whether the response is
+# delimited by closing the connection) -------------------------------------------------------------------------
+CONN = [b"close", b"Close", b"CLOSE", b"keep-alive", b"Keep-Alive", b"keep-alive", b"KEEP-ALIVE", b"keep-alive, close",
+        b"close, keep-alive", b"keep-alive,close", b"close,keep-alive", b"TE, close", b"te close", b"close TE", b"Upgrade",
+        b"upgrade, keep-alive", b"closed", b"x-close", b"close\tx", b"", b"close ", b" close", b"\tclose\t", b"keep-alive ",
+        b"keep-alive  close", b" ", b"close;q=1", b"clos", b"e close", b"keep-alive keep-alive", b"Keep-Alive, Upgrade"]
 
 EDGE = [b"\n"] * 4 + [b"\r", b"\r\n", b"\n\n", b"\r\r", b"\n\r", b"\x00", b"\x0b", b"\x0c", b" ", b"\t", b"\x1c", b"\x85", b"\xc2\x85",
                         b"\xe2\x80\xa8"]
@@ -613,10 +846,46 @@ CODES = [200, 200, 200, 201, 204, 304, 301, 404, 500, 205, 299, 999, 206, 418, 6
 ODD_CODES = [100, 101, 199, 99, 1000, 0, 1234, 7]
 
 
-def _script(rng):
+def _norm_pair_ops(rng):
+    """the valid name (one or two spellings), then a name a normalisation collapses onto it — to be refused"""
+    base = rng.choice(NORM_BASES)
+    how, var = rng.choice(_norm_variants(base))
+    ops = []
+    for sp in rng.sample(_spellings(base), rng.choice([1, 1, 2])):
+        ops.append([rng.choice(["sh", "sh", "ah"]), S(sp), S(rng.choice([b"1", b"v", "w"]))])
+    k = rng.choice(["sh", "sh", "ah", "sr", "rm"])
+    ops.append(["rm", S(var)] if k == "rm" else ["sr", S(var), [S(b"x")]] if k == "sr" else [k, S(var), S(b"x")])
+    return ops
+
+
+def _shared_list_ops(rng):
+    """ONE list object of the application handed to several setRawHeaders calls (and changed by the application
+    afterwards): each call must have stored the values as they were at the call"""
+    key = rng.randrange(3)
+    names = rng.sample([b"X-A", b"X-B", "X-C", b"Vary", b"Set-Cookie", "Content-Type"], rng.choice([2, 2, 3]))
+    clean = lambda: S(rng.choice([b"1", b"2", b"a, b", b"text/html", b""]))
+    ops = []
+    vals = [clean() if rng.random() < 0.75 else _rval(rng) for _ in range(rng.choice([1, 1, 2, 3]))]
+    for i, n in enumerate(names):
+        if i and rng.random() < 0.3:
+            vals = [clean() if rng.random() < 0.75 else _rval(rng) for _ in range(rng.choice([0, 1, 2]))]
+        r = rng.random()
+        after = None if r < 0.45 else "clear" if r < 0.6 else [clean() for _ in range(rng.choice([1, 2]))]
+        ops.append(["sr", S(n), list(vals), key, after])
+    for _ in range(rng.choice([0, 1, 1, 2])):
+        ops.append(["ah", S(rng.choice(names)), clean()])
+    return ops
+
+
+def _script(rng, ctx=True):
     v11 = int(rng.random() < 0.7)
     head = int(rng.random() < 0.2)
     close = int(rng.random() < 0.15)
+    conn = None
+    if ctx and rng.random() < 0.12:
+        # another Connection header than none / `close`; HTTP/1.0 (where only closing ends an uncounted body) half of the time
+        close, conn = 0, rng.choice(CONN).hex()
+        v11 = int(rng.random() < 0.5)
     setup = []
     r = rng.random()
     if r < 0.75:
@@ -652,6 +921,11 @@ def _script(rng):
                                              ["sr", S(n), [_rval(rng) for _ in range(rng.choice([0, 1, 2]))]]]))
     if rng.random() < 0.06:
         setup.append(["rm", _rname(rng)])
+    special = []
+    if rng.random() < 0.05:
+        special += _norm_pair_ops(rng)            # order matters: kept together, inserted after the shuffle
+    if rng.random() < 0.05:
+        special += _shared_list_ops(rng)
     for _ in range(rng.choice([0, 0, 0, 1, 1, 2])):
         attrs = [(_rval(rng) if rng.random() < 0.25 else None) for _ in range(5)]
         rs = rng.random()
@@ -663,6 +937,9 @@ def _script(rng):
     if rng.random() < 0.05:
         setup.append(["sh", S(b"Set-Cookie"), _rval(rng)])
     rng.shuffle(setup)
+    if special:
+        i = rng.randint(0, len(setup))
+        setup[i:i] = special
     writes = [["w", _rbody(rng).hex()] for _ in range(rng.choice([0, 1, 1, 2, 2, 3, 4]))]
     total = sum(len(w[1]) // 2 for w in writes)
     r = rng.random()
@@ -693,7 +970,37 @@ def _script(rng):
     elif r < 0.18:
         ops.append(rng.choice([["w", "6162"], ["f"], ["w", ""], ["sh", S(b"X-Late"), S(b"1")], ["sh", S(b"X-Late\n"), S(b"1")],
                                ["rm", S(b"Content-Length")], ["sr", S(b"Transfer-Encoding"), []]]))
-    return {"op": "run", "v11": v11, "head": head, "close": close, "ops": ops}
+    c = {"op": "run", "v11": v11, "head": head, "close": close, "ops": ops}
+    if conn is not None:
+        c["conn"] = conn
+    if ctx and rng.random() < 0.14:
+        # earlier requests on the same (persistent) connection, each answered by its own script
+        c["prev"] = []
+        for _ in range(rng.choice([1, 1, 2, 3])):
+            p = _script(rng, ctx=False) if rng.random() < 0.6 else _twin(rng, c)
+            c["prev"].append({"head": p["head"], "ops": p["ops"]})
+        c["pipe"] = int(rng.random() < 0.5)
+    return c
+
+
+def _twin(rng, c):
+    """an earlier exchange that looks like the observed one but differs in ONE respect (reason, a value, the method,
+    the writes): what a per-connection cache keyed on too little would hand back"""
+    ops = [list(o) for o in c["ops"]]
+    r = rng.random()
+    code = next((o[1] for o in ops if o[0] == "sc"), 200)
+    if r < 0.4:
+        ops = [o for o in ops if o[0] != "sc"]
+        ops.insert(0, ["sc", code, rng.choice([b"Earlier", b"", b"OK", b"Not OK"]).hex()])
+    elif r < 0.6:
+        ops.insert(0, ["sh", S(rng.choice([b"X-Earlier", b"Content-Type", b"Set-Cookie"])), S(b"earlier")])
+    elif r < 0.8:
+        ops = [o for o in ops if o[0] != "w"]
+        ops.insert(max(0, len(ops) - 1), ["w", b"earlier body".hex()])
+        ops = [o for o in ops if not (o[0] in ("sh", "sr") and (_name(unS(o[1])) == b"content-length"))]
+    if not any(o[0] == "f" for o in ops):
+        ops.append(["f"])
+    return {"head": int(rng.random() < 0.3) if r >= 0.8 else c["head"], "ops": ops}
 
 
 def corpus():
@@ -750,6 +1057,45 @@ def corpus():
         {"op": "name", "n": S("Content-Length\n")}, {"op": "name", "n": S("X-Foo\x85")}, {"op": "name", "n": S("X-Foo\u2028")},
         {"op": "san", "x": (b"a\r\nb\rc\nd\n").hex()}, {"op": "san", "x": (b"\r\r\n\n").hex()}, {"op": "san", "x": (b"a\x00b\x0bc\x0c").hex()},
         {"op": "name", "n": S(b"content-md5")}, {"op": "name", "n": S("x-xss-protection")}, {"op": "name", "n": S(b"a b")},
+        # --- white-box audit (harness/mutants/C20) ---
+        # a name that a normalisation (lower: KELVIN SIGN; upper: LONG S, ß; strip; NFKC) maps onto a valid name used just before
+        {"op": "names", "ns": [S("x-fook"), S("X-Foo\u212a")]},
+        {"op": "names", "ns": [S("SET-COOKIE"), S(b"set-cookie"), S("\u017fet-Cookie"), S("Set-Coo\u212aie"), S("Set-Cookie\n"), S(b"Set-Cookie ")]},
+        {"op": "names", "ns": [S("KISS"), S("Ki\xdf"), S("kiss"), S("Ki\xdf"), S("K\u0131ss")]},
+        {"op": "run", "v11": 1, "head": 0, "close": 0,
+         "ops": [["sh", S("set-cookie"), S(b"a=b")], ["ah", S("Set-Coo\u212aie"), S(b"evil=1")], ["sh", S("x-a2"), S(b"1")], ["sh", S("X-A\xb2"), S(b"2")],
+                 ["w", "6162"], ["f"]]},
+        # the application's own list object handed to several setRawHeaders calls, and changed by it afterwards
+        {"op": "run", "v11": 1, "head": 0, "close": 0,
+         "ops": [["sr", S(b"X-A"), [S(b"1")], 0, None], ["sr", S(b"X-B"), [S(b"1")], 0, None], ["ah", S(b"X-A"), S(b"2")], ["f"]]},
+        {"op": "run", "v11": 1, "head": 0, "close": 0,
+         "ops": [["sr", S(b"X-A"), [S(b"1"), S(b"2")], 1, "clear"], ["sr", S("X-B"), [S(b"3")], 1, [S(b"4")]], ["w", "61"], ["f"]]},
+        {"op": "run", "v11": 0, "head": 0, "close": 0,
+         "ops": [["sr", S(b"Set-Cookie"), [S(b"a=b")], 0, [S(b"late=1")]], ["ck", S(b"k"), S(b"v"), None, None, None, None, None, 0, 0, None], ["f"]]},
+        # instances of str / bytes subclasses as names, values, cookie parts
+        {"op": "run", "v11": 1, "head": 0, "close": 0,
+         "ops": [["sh", ["bs", b"X-A".hex()], ["ts", [97, 10, 98]]], ["ah", ["ts", [88, 45, 66]], ["bs", b"v\r\nw".hex()]],
+                 ["sr", ["ts", [88, 45, 67]], [["ts", [49]], ["bs", "32"], S(b"3")]], ["sh", ["ts", [88, 45, 68, 10]], ["ts", [49]]],
+                 ["ck", ["ts", [107]], ["bs", "76"], None, None, ["ts", [47]], None, None, 0, 1, ["ts", [76, 97, 120]]], ["w", "616263"], ["f"]]},
+        {"op": "names", "ns": [["ts", [88, 45, 65]], ["bs", b"X-A".hex()], ["ts", [88, 45, 65, 10]], ["bs", b"X-A\n".hex()], ["ts", [256]]]},
+        # the request's own Connection header: HTTP/1.0 + keep-alive and no Content-Length (only closing ends the body)
+        {"op": "run", "v11": 0, "head": 0, "close": 0, "conn": b"keep-alive".hex(), "ops": [["w", "616263"], ["f"]]},
+        {"op": "run", "v11": 0, "head": 0, "close": 0, "conn": b"Keep-Alive".hex(), "ops": [["sh", S(b"Content-Length"), S(b"3")], ["w", "616263"], ["f"]]},
+        {"op": "run", "v11": 1, "head": 0, "close": 0, "conn": b"keep-alive, close".hex(), "ops": [["w", "616263"], ["f"]]},
+        {"op": "run", "v11": 1, "head": 0, "close": 0, "conn": b"Close".hex(), "ops": [["sh", S(b"Connection"), S(b"keep-alive")], ["w", "616263"], ["f"]]},
+        {"op": "run", "v11": 1, "head": 1, "close": 0, "conn": b"keep-alive,close".hex(), "ops": [["f"]]},
+        {"op": "run", "v11": 1, "head": 0, "close": 0, "conn": "", "ops": [["w", "61"], ["f"]]},
+        # several requests on ONE connection: every response stands for itself (same code, other reason / fields / method / body)
+        {"op": "run", "v11": 1, "head": 0, "close": 0, "pipe": 0, "prev": [{"head": 0, "ops": [["sc", 200, b"First".hex()], ["f"]]}],
+         "ops": [["sc", 200, b"Second".hex()], ["f"]]},
+        {"op": "run", "v11": 1, "head": 0, "close": 0, "pipe": 1,
+         "prev": [{"head": 1, "ops": [["sh", S(b"X-A"), S(b"1")], ["ck", S(b"k"), S(b"v"), None, None, None, None, None, 0, 0, None], ["w", "616263"], ["f"]]},
+                  {"head": 0, "ops": [["sc", 304, None], ["w", "616263"], ["f"], ["w", "61"]]}],
+         "ops": [["sc", 404, None], ["w", "616263"], ["w", "64"], ["f"]]},
+        {"op": "run", "v11": 0, "head": 0, "close": 0, "pipe": 1, "prev": [{"head": 0, "ops": [["sh", S(b"Content-Length"), S(b"2")], ["w", "6162"], ["f"]]}] * 3,
+         "ops": [["w", "6162"], ["f"]]},
+        {"op": "run", "v11": 1, "head": 0, "close": 1, "pipe": 0, "prev": [{"head": 0, "ops": [["sh", S(b"X-Foo\n"), S(b"v")], ["w", "61"], ["f"]]}],
+         "ops": [["sh", S(b"X-Foo\n"), S(b"v")], ["sh", S(b"X-Foo"), S(b"v")], ["w", "61"], ["f"]]},
     ]
 
 
@@ -779,6 +1125,22 @@ def _sweep():
                     if i % 5 == 0:
                         ops.append(["rm", S(nn)])
                     yield {"op": "run", "v11": int(i % 4 != 0), "head": 0, "close": 0, "ops": ops + [["w", "616263"], ["f"]]}
+    # every name that a normalisation maps onto a valid name, right after two spellings of that valid name
+    for base in NORM_BASES:
+        sp = _spellings(base)
+        for j, (how, var) in enumerate(_norm_variants(base)):
+            yield {"op": "names", "ns": [S(sp[j % len(sp)]), S(sp[(j + 3) % len(sp)]), S(var)]}
+            if how != "strip" and base in NORM_BASES[:8]:
+                i += 1
+                k = ("sh", "ah", "sr")[i % 3]
+                yield {"op": "run", "v11": i % 2, "head": 0, "close": 0,
+                       "ops": [["sh", S(sp[i % len(sp)]), S(b"1")], [k, S(var), [S(b"x")] if k == "sr" else S(b"x")], ["w", "6162"], ["f"]]}
+    # every Connection request header of the table, HTTP/1.0 and 1.1, with and without a Content-Length
+    for v in CONN:
+        for v11 in (0, 1):
+            for counted in (0, 1):
+                yield {"op": "run", "v11": v11, "head": 0, "close": 0, "conn": v.hex(),
+                       "ops": ([["sh", S(b"Content-Length"), S(b"3")]] if counted else []) + [["w", "616263"], ["f"]]}
 
 
 def generate(rng, tier):
@@ -795,10 +1157,11 @@ def generate(rng, tier):
 
 
 def _shrink_str(s):
-    if s[0] == "b":
+    sub = [[s[0][0], s[1]]] if len(s[0]) > 1 else []          # the plain type instead of the subclass
+    if s[0][0] == "b":
         b = bytes.fromhex(s[1])
-        return [["b", (b[:j] + b[j + 1:]).hex()] for j in range(len(b))]
-    return [["t", s[1][:j] + s[1][j + 1:]] for j in range(len(s[1]))]
+        return sub + [[s[0], (b[:j] + b[j + 1:]).hex()] for j in range(len(b))]
+    return sub + [[s[0], s[1][:j] + s[1][j + 1:]] for j in range(len(s[1]))]
 
 
 def shrink(c):
@@ -806,6 +1169,35 @@ def shrink(c):
         for cand in _shrink_str(c["n"]):
             yield {"op": "name", "n": cand}
         return
+    if c["op"] == "names":
+        ns = c["ns"]
+        for i in range(len(ns)):
+            if len(ns) > 1:
+                yield {"op": "names", "ns": ns[:i] + ns[i + 1:]}
+        for i in range(len(ns)):
+            for cand in _shrink_str(ns[i]):
+                yield {"op": "names", "ns": ns[:i] + [cand] + ns[i + 1:]}
+        return
+    if c["op"] == "run" and c.get("prev"):
+        prev = c["prev"]
+        for i in range(len(prev)):
+            yield dict(c, prev=prev[:i] + prev[i + 1:])
+        if c.get("pipe"):
+            yield dict(c, pipe=0)
+        for i, p in enumerate(prev):
+            if p["head"]:
+                yield dict(c, prev=prev[:i] + [dict(p, head=0)] + prev[i + 1:])
+            for cand in _shrink_script(dict(p, op="run", v11=1, close=0)):
+                yield dict(c, prev=prev[:i] + [{"head": cand["head"], "ops": cand["ops"]}] + prev[i + 1:])
+    if c["op"] == "run" and c.get("conn") is not None:
+        yield {k: v for k, v in c.items() if k != "conn"}
+        v = bytes.fromhex(c["conn"])
+        for i in range(len(v)):
+            yield dict(c, conn=(v[:i] + v[i + 1:]).hex())
+    yield from _shrink_script(c)
+
+
+def _shrink_script(c):
     if c["op"] != "run":
         if c["op"] == "san":
             x = bytes.fromhex(c["x"])
@@ -817,7 +1209,7 @@ def shrink(c):
         if ops[i][0] != "f" or sum(1 for o in ops if o[0] == "f") > 1:
             yield dict(c, ops=ops[:i] + ops[i + 1:])
     for flag in ("close", "head"):
-        if c[flag]:
+        if c.get(flag):
             yield dict(c, **{flag: 0})
     for i, op in enumerate(ops):
         if op[0] == "w" and len(op[1]) > 2:
@@ -828,20 +1220,19 @@ def shrink(c):
                 yield dict(c, ops=ops[:i] + [["sc", op[1], (b[:j] + b[j + 1:]).hex()]] + ops[i + 1:])
         if op[0] == "sr":
             vs = op[2]
+            if len(op) > 3:
+                yield dict(c, ops=ops[:i] + [op[:3]] + ops[i + 1:])            # a fresh list instead of the shared one
+                if len(op) > 4 and op[4] is not None:
+                    yield dict(c, ops=ops[:i] + [op[:4]] + ops[i + 1:])
             for j in range(len(vs)):
-                yield dict(c, ops=ops[:i] + [[op[0], op[1], vs[:j] + vs[j + 1:]]] + ops[i + 1:])
+                yield dict(c, ops=ops[:i] + [[op[0], op[1], vs[:j] + vs[j + 1:]] + op[3:]] + ops[i + 1:])
                 for cand in _shrink_str(vs[j]):
-                    yield dict(c, ops=ops[:i] + [[op[0], op[1], vs[:j] + [cand] + vs[j + 1:]]] + ops[i + 1:])
+                    yield dict(c, ops=ops[:i] + [[op[0], op[1], vs[:j] + [cand] + vs[j + 1:]] + op[3:]] + ops[i + 1:])
         if op[0] in ("sh", "ah", "ck", "sr", "rm"):
             for pos in range(1, len(op)):
                 s = op[pos]
-                if isinstance(s, list) and len(s) == 2 and s[0] in ("b", "t"):
-                    if s[0] == "b":
-                        b = bytes.fromhex(s[1])
-                        cands = [["b", (b[:j] + b[j + 1:]).hex()] for j in range(len(b))]
-                    else:
-                        cands = [["t", s[1][:j] + s[1][j + 1:]] for j in range(len(s[1]))]
-                    for cand in cands:
+                if isinstance(s, list) and len(s) == 2 and s[0] in KINDS:
+                    for cand in _shrink_str(s):
                         yield dict(c, ops=ops[:i] + [op[:pos] + [cand] + op[pos + 1:]] + ops[i + 1:])
                     if op[0] == "ck" and pos >= 3:
                         yield dict(c, ops=ops[:i] + [op[:pos] + [None] + op[pos + 1:]] + ops[i + 1:])
@@ -888,6 +1279,9 @@ def _name_class(s):
 def tag(c, out):
     if c["op"] == "name":
         return "name:" + c["n"][0] + ":" + _name_class(c["n"]) + (":refused" if out.startswith("!") else ":ok")
+    if c["op"] == "names":
+        return "names:" + ",".join(n[0] + ":" + _name_class(n) for n in c["ns"][:4]) + ":" + \
+            "".join("r" if o.startswith("!") else "a" for o in out.split(",")[:6])
     if c["op"] == "san":
         x = bytes.fromhex(c["x"])
         return "san:" + "".join(ch for ch, b in (("r", 13), ("n", 10), ("0", 0), ("v", 11), ("f", 12)) if b in x) + \
@@ -895,7 +1289,7 @@ def tag(c, out):
     if out.startswith("!"):
         return "run:" + out
     e = expected(c)
-    f = _fields(out)
+    f = _fields(out.split(SEP)[-1])
     if e is None:
         return "run:nothing-written"
     raw = _unhx(f["out"])
@@ -905,7 +1299,28 @@ def tag(c, out):
     names = ",".join(sorted(set(nc for nc in (_name_class(o[1]) for o in c["ops"] if o[0] in ("sh", "ah", "sr", "rm")) if nc != "ok")))
     return (f"run:{'1.1' if c['v11'] else '1.0'}:{'HEAD' if c['head'] else 'GET'}:{e['status'] // 100}xx:{framing}:"
             f"{'wf' if e['wf'] else 'illformed'}{_hostile_where(c)}:{kinds}:w{min(3, sum(1 for o in c['ops'] if o[0] == 'w'))}"
-            f":closed{f['closed']}" + (f":names[{names}]" if names else ""))
+            f":closed{f['closed']}" + (f":names[{names}]" if names else "") + _ctx_tag(c))
+
+
+def _ctx_tag(c):
+    """what is new in the context: the request's Connection header, earlier requests on the connection, argument objects"""
+    t = ""
+    if c.get("conn") is not None:
+        v = bytes.fromhex(c["conn"]).lower()
+        t += ":conn[" + ("close" if v == b"close" else "keep-alive" if v == b"keep-alive" else
+                         "has-close" if b"close" in v else "has-keep-alive" if b"keep-alive" in v else "other") + "]"
+    if c.get("prev"):
+        t += f":after{min(3, len(c['prev']))}" + ("p" if c.get("pipe") else "s") + \
+            ("H" if any(p["head"] for p in c["prev"]) else "")
+    kinds = set()
+    for o in c["ops"]:
+        if o[0] == "sr" and len(o) > 3 and o[3] is not None:
+            kinds.add("shared-list" + ("+mutated" if len(o) > 4 and o[4] is not None else ""))
+        for x in o[1:]:
+            for y in (x if isinstance(x, list) and x and isinstance(x[0], list) else [x]):
+                if isinstance(y, list) and len(y) == 2 and y[0] in ("bs", "ts"):
+                    kinds.add(y[0])
+    return (":obj[" + ",".join(sorted(kinds)) + "]") if kinds else ""
 
 
 def search(rng, tier, disagreeing):
